@@ -113,8 +113,25 @@ pub struct Env {
     labels: BTreeMap<u32, jlabel::Label>,
 }
 
+/// One scratch directory per top-level invocation: the first jbsim process of a check creates
+/// `/dev/shm/jbsim-<pid>`, exports it as JBSIM_SCRATCH, and every descendant (spawned or forked)
+/// works below it; only the owner removes it (see `claim_scratch_root` / main).
 pub fn scratch_root() -> PathBuf {
-    PathBuf::from(format!("/dev/shm/jbsim-{}", std::process::id()))
+    match std::env::var_os("JBSIM_SCRATCH") {
+        Some(p) => PathBuf::from(p),
+        None => PathBuf::from(format!("/dev/shm/jbsim-{}", std::process::id())),
+    }
+}
+
+/// Returns true if this process owns the scratch root (and must remove it at exit).
+pub fn claim_scratch_root() -> bool {
+    if std::env::var_os("JBSIM_SCRATCH").is_some() {
+        return false;
+    }
+    let p = format!("/dev/shm/jbsim-{}", std::process::id());
+    let _ = std::fs::create_dir_all(&p);
+    std::env::set_var("JBSIM_SCRATCH", &p);
+    true
 }
 
 impl Env {
@@ -129,7 +146,7 @@ impl Env {
         if corpus.len() < 100 {
             return Err("corpus too small".into());
         }
-        let dir = scratch_root().join(tag);
+        let dir = scratch_root().join(format!("{}-{}", tag, std::process::id()));
         std::fs::create_dir_all(&dir).map_err(|e| format!("mkdir {:?}: {}", dir, e))?;
         Ok(Env { pool, corpus, dir, voices: BTreeMap::new(), next_uid: 0, bundled_bytes: None, labels: BTreeMap::new() })
     }
@@ -137,7 +154,7 @@ impl Env {
     /// Cheap environment for simulated threads: shares the corpus, has no question pool
     /// (such threads never generate voices, they only use engines handed to them).
     pub fn lite(tag: &str, corpus: &std::sync::Arc<Vec<String>>) -> Result<Env, String> {
-        let dir = scratch_root().join(tag);
+        let dir = scratch_root().join(format!("{}-{}", tag, std::process::id()));
         std::fs::create_dir_all(&dir).map_err(|e| format!("mkdir {:?}: {}", dir, e))?;
         Ok(Env { pool: QuestionPool { lines: Vec::new() }, corpus: corpus.as_ref().clone(), dir, voices: BTreeMap::new(), next_uid: 0, bundled_bytes: None, labels: BTreeMap::new() })
     }
